@@ -4489,3 +4489,143 @@ func ruleTxCompatible(c *Ctx) {
 		}
 	}
 }
+
+// ---------------------------------------------------------------------------
+// detach-before-release (C12) - an instruction that takes an element out of a compound item (REMOVE, POPITEM,
+// CLEARITEMS) tells the reference counter about it with refs.Remove(element). If the element references the
+// container itself (m[0] = m) and this was the container's last reference, the release recurses into the container
+// and releases everything it *still holds* - so the element has to be out of the container by then, or it is released
+// twice (the counter ends below what is reachable: credit against the 2048 limit). CLEARITEMS and POPITEM detach
+// first; the rule makes that the law for every arm: in the branch that contains refs.Remove(x) with x read out of
+// container t, the mutating call on t (Remove, Drop, Clear) precedes the release.
+func ruleDetachBeforeRelease(c *Ctx) {
+	fd := c.P.Func("pkg/vm", "VM", "execute")
+	if fd == nil {
+		c.Lost("detach-before-release.anchor", "VM.execute not found")
+		return
+	}
+	info := fd.Pkg.TypesInfo
+	mutators := map[string]bool{"Remove": true, "Drop": true, "Clear": true}
+	n := 0
+	seenKey := map[string]int{}
+	var visit func(list []ast.Stmt, arm string)
+	visit = func(list []ast.Stmt, arm string) {
+		// one statement list = one branch: collect, in order, mutator calls on a stackitem container and releases
+		type ev struct {
+			pos     token.Pos
+			mut     bool
+			recv    types.Object // container variable for mutators
+			argRoot types.Object // root variable of the released expression
+		}
+		var evs []ev
+		collect := func(st ast.Stmt) []ev {
+			var out []ev
+			ast.Inspect(st, func(x ast.Node) bool {
+				call, ok := x.(*ast.CallExpr)
+				if !ok {
+					return true
+				}
+				sel, ok := call.Fun.(*ast.SelectorExpr)
+				if !ok {
+					return true
+				}
+				if fn, ok := info.ObjectOf(sel.Sel).(*types.Func); ok {
+					k := FuncKey(fn)
+					if k == "pkg/vm.(*refCounter).Remove" && len(call.Args) == 1 {
+						out = append(out, ev{pos: call.Pos(), argRoot: rootObj(info, call.Args[0])})
+					} else if mutators[sel.Sel.Name] && strings.HasPrefix(k, "pkg/vm/stackitem.(*") {
+						out = append(out, ev{pos: call.Pos(), mut: true, recv: rootObj(info, sel.X)})
+					}
+				}
+				return true
+			})
+			return out
+		}
+		split := false
+		for _, st := range list {
+			es := collect(st)
+			m, r := false, false
+			for _, e := range es {
+				if e.mut {
+					m = true
+				} else {
+					r = true
+				}
+			}
+			if m && r {
+				// this one statement (a switch over the container's type, an if) holds both: its branches are the units
+				split = true
+				switch s := st.(type) {
+				case *ast.IfStmt:
+					visit(s.Body.List, arm)
+					if eb, ok := s.Else.(*ast.BlockStmt); ok {
+						visit(eb.List, arm)
+					}
+				case *ast.TypeSwitchStmt:
+					for _, cc := range s.Body.List {
+						visit(cc.(*ast.CaseClause).Body, arm)
+					}
+				case *ast.SwitchStmt:
+					for _, cc := range s.Body.List {
+						visit(cc.(*ast.CaseClause).Body, arm)
+					}
+				case *ast.BlockStmt:
+					visit(s.List, arm)
+				default:
+					split = false
+				}
+				continue
+			}
+			evs = append(evs, es...)
+		}
+		if split {
+			return
+		}
+		hasMut, hasRel := false, false
+		for _, e := range evs {
+			if e.mut {
+				hasMut = true
+			} else {
+				hasRel = true
+			}
+		}
+		if hasMut && hasRel {
+			n++
+			seenKey[arm]++
+			key := fmt.Sprintf("detach-before-release.%s#%d", arm, seenKey[arm])
+			firstMut, firstRel := token.NoPos, token.NoPos
+			for _, e := range evs {
+				if e.mut && !firstMut.IsValid() {
+					firstMut = e.pos
+				}
+				if !e.mut && !firstRel.IsValid() {
+					firstRel = e.pos
+				}
+			}
+			if firstMut < firstRel {
+				c.OK(key, c.P.Pos(firstMut), "the element is taken out of the container before the reference counter is told")
+			} else {
+				c.Fail(key, c.P.Pos(firstRel), fmt.Sprintf("%s releases an element with refs.Remove while the container still holds it: if the element references the container and this was its last reference, the recursive release of the container releases the element's entry a second time and the item counter ends below what is reachable", arm))
+			}
+			return
+		}
+	}
+	ast.Inspect(fd.Decl.Body, func(x ast.Node) bool {
+		cc, ok := x.(*ast.CaseClause)
+		if !ok {
+			return true
+		}
+		for _, e := range cc.List {
+			if tv := info.Types[e]; tv.Type != nil && namedTypeIs(tv.Type, "pkg/vm/opcode", "Opcode") {
+				if sel, ok := ast.Unparen(e).(*ast.SelectorExpr); ok {
+					// an arm whose type-switch branches each hold both events is visited branch by branch; an arm like POPITEM
+					// (mutation inside the switch, release after it) is one list
+					visit(cc.Body, sel.Sel.Name)
+					return false
+				}
+			}
+		}
+		return true
+	})
+	c.Floor("branches that both detach and release", n, 7)
+}
